@@ -436,3 +436,83 @@ def compare(vlib, imports, case_type, check_fn, terms, workdir, tag, preamble, s
             bad += b
             errs += e
     return sorted(bad), errs
+
+
+# ------------------------------------------------ real transport against a threaded HTTP server
+class RealHttpServer(object):
+    """A threaded XML-RPC server on 127.0.0.1:<free port> (stdlib SimpleXMLRPCServer, HTTP/1.1 keep-alive)
+    answering the supervisor namespace; supervisorctl talks to it through the REAL ClientOptions.getServerProxy /
+    xmlrpc.SupervisorTransport (persistent connection, Content-Length per request).  `faults` maps a process /
+    group name to (code, text).  Every call received is recorded in `calls`."""
+    def __init__(self, faults=None):
+        self.faults = faults or {}
+        self.calls = []
+
+    def _dispatch(self, method, params):
+        from supervisor.compat import xmlrpclib
+        self.calls.append((method, list(params)))
+        m = method.split('.', 1)[-1]
+        if m == 'getVersion':
+            return '3.0'
+        if params and isinstance(params[0], str) and params[0] in self.faults:
+            c, text = self.faults[params[0]]
+            raise xmlrpclib.Fault(c, text)
+        if m == 'getProcessInfo':
+            return {'name': params[0], 'group': params[0], 'state': 20, 'statename': 'RUNNING', 'description': 'pid 77',
+                    'pid': 77}
+        if m == 'getAllProcessInfo':
+            return [{'name': 'worker:0', 'group': 'web', 'state': 20, 'statename': 'RUNNING', 'description': 'pid 5', 'pid': 5},
+                    {'name': 'a', 'group': 'a', 'state': 20, 'statename': 'RUNNING', 'description': 'pid 6', 'pid': 6}]
+        if m.endswith('ProcessGroup') and m != 'addProcessGroup' and m != 'removeProcessGroup':
+            return [{'name': 'p', 'group': params[0], 'status': 80, 'description': 'OK'}]
+        return True
+
+    def __enter__(self):
+        import threading
+        from xmlrpc.server import SimpleXMLRPCServer, SimpleXMLRPCRequestHandler
+        import socketserver
+
+        class Handler(SimpleXMLRPCRequestHandler):
+            protocol_version = 'HTTP/1.1'
+            timeout = 3
+            rpc_paths = ('/', '/RPC2')
+
+        class Srv(socketserver.ThreadingMixIn, SimpleXMLRPCServer):
+            daemon_threads = True
+
+        self.srv = Srv(('127.0.0.1', 0), requestHandler=Handler, logRequests=False, allow_none=True)
+        self.srv.register_instance(self)
+        self.url = 'http://127.0.0.1:%d' % self.srv.server_address[1]
+        self.thread = threading.Thread(target=self.srv.serve_forever, kwargs={'poll_interval': 0.05})
+        self.thread.daemon = True
+        self.thread.start()
+        return self
+
+    def __exit__(self, *a):
+        self.srv.shutdown()
+        self.srv.server_close()
+
+
+def run_real_transport(line, server):
+    """Controller.onecmd(line) over the real transport (real ClientOptions.getServerProxy)."""
+    import socket as _socket
+    from supervisor import supervisorctl
+    from supervisor.options import ClientOptions
+    o = ClientOptions()
+    o.interactive = False
+    o.prompt = 'supervisor'
+    o.serverurl = server.url
+    o.username = None
+    o.password = None
+    out = _Out()
+    c = supervisorctl.Controller(o, stdout=out)
+    escaped = None
+    old = _socket.getdefaulttimeout()
+    _socket.setdefaulttimeout(8)
+    try:
+        c.onecmd(line)
+    except BaseException as e:
+        escaped = '%s: %s' % (type(e).__name__, e)
+    finally:
+        _socket.setdefaulttimeout(old)
+    return {'msgs': list(out.msgs), 'status': c.exitstatus, 'escaped': escaped}
